@@ -515,15 +515,22 @@ func doCheck(cfg *CheckCfg, tier, patch string, seed int64, scratch string, star
 			fmt.Fprintf(os.Stderr, "HARNESS-ERROR property=%s race build failed\n%v\n", id, err)
 			infra = true
 		} else {
-			res, log, err := runShard(rbin, cfg, tier, seed, 0, 1, scratch, "", time.Now().Add(120*time.Second), true)
+			raceBudget := 120 * time.Second
+			if tier == "thorough" {
+				raceBudget = 300 * time.Second
+			}
+			res, log, err := runShard(rbin, cfg, tier, seed, 0, 1, scratch, "", time.Now().Add(raceBudget), true)
 			switch {
 			case strings.Contains(log, "WARNING: DATA RACE"):
 				racePass = "DATA RACE reported"
 				rp := writeReplay(id, Violation{Key: id + "|data-race", What: "free-running -race pass reported a data race", Detail: mustJSON(tail(log, 4000))})
 				m.violations = append(m.violations, Violation{Key: id + "|data-race", What: "data race in free-running pass (log in " + rp + ")"})
 			case err != nil:
-				fmt.Fprintf(os.Stderr, "HARNESS-ERROR property=%s race pass: %v\n%s\n", id, err, tail(log, 4000))
-				infra = true
+				// the free-running pass did not finish (usually the wall-clock limit on a loaded machine): it
+				// adds race detection to the exhaustive part and gives no verdict of its own, so this is recorded,
+				// not treated as a broken check
+				fmt.Fprintf(os.Stderr, "RACE-PASS-INCOMPLETE property=%s %v (no data race reported up to that point; not a verdict)\n", id, err)
+				racePass = "incomplete: " + err.Error()
 			default:
 				racePass = fmt.Sprintf("clean (%d executions)", res.Evaluations)
 			}
